@@ -81,6 +81,21 @@ def h_sl(env, nspin):
     env.finite("dtauw", list(st.dtauw(rho.copy(), sig.copy())))
 
 
+def h_clamped_leaves(env):
+    """below ALPHA_TOL the semilocal ingredients s^2 and alpha are clamped to exactly 0, so their derivative routines must return
+    exactly 0 there too: anything else is a contribution to the potential from a feature that does not move"""
+    st = env.m.settings
+    rho, sig, tau = env.arr("rho", (1,), "nonneg", hi="1"), env.arr("sig", (1,), "nonneg", hi="1e24"), env.arr("tau", (1,), "nonneg", hi="1e18")
+    env.assume(rho[0] < env.const(Fraction(1, 10 ** 10)))
+    env.eps_real()
+    env.equal("s2_clamped_to_zero", st.get_s2(rho.copy(), sig.copy())[0], 0)
+    env.equal("alpha_clamped_to_zero", st.get_alpha(rho.copy(), sig.copy(), tau.copy())[0], 0)
+    for nm, d in zip(("rho", "sigma"), st.ds2(rho.copy(), sig.copy())):
+        env.equal("ds2_d%s_zero_where_s2_is_clamped" % nm, d[0], 0)
+    for nm, d in zip(("rho", "sigma", "tau"), st.dalpha(rho.copy(), sig.copy(), tau.copy())):
+        env.equal("dalpha_d%s_zero_where_alpha_is_clamped" % nm, d[0], 0)
+
+
 def h_baseline(env, name, nspin):
     bl = env.m.baselines
     X = env.arr("X", (nspin, 4, 1), "nonneg", hi="1e12")
@@ -153,6 +168,7 @@ def tasks(tier):
         out.append(Task("normlist/%s" % slmode, h_normlist, dict(slmode=slmode), max_paths=64))
     for nspin in (1, 2):
         out.append(Task("semilocal/nspin%d" % nspin, h_sl, dict(nspin=nspin), max_paths=2048))
+    out.append(Task("semilocal/clamped_leaves", h_clamped_leaves, {}, max_paths=64))
     for name in ["ZERO", "ONE", "LDA_X", "NLDA_X_DAMP", "GGA_X_PBE", "GGA_X_CHACHIYO", "RHO"]:
         for nspin in (1, 2):
             out.append(Task("baseline/%s/nspin%d" % (name, nspin), h_baseline, dict(name=name, nspin=nspin)))
@@ -181,7 +197,7 @@ def prepare(tier):
 META = dict(
     explanation="symbolic execution over the whole non-negative domain; for every division/root/log node in the output terms z3 "
                 "decides whether its argument can leave the domain under the path condition; below-cutoff zeros decided as term identities",
-    functions=['ciderpress/dft/xc_evaluator.py: MappedDFTKernel.__call__ with the real native baselines incl. ciderpress/dft/baselines.py get_sigma, get_dsigma, get_gga_c (kernel_cut/*; libxc total by contract)', "ciderpress/dft/transform_data.py: all map classes", "ciderpress/dft/feat_normalizer.py: FeatNormalizerList + 3 normaliser classes",
+    functions=['ciderpress/dft/settings.py: get_s2 / ds2 / get_alpha / dalpha below ALPHA_TOL (semilocal/clamped_leaves)', 'ciderpress/dft/xc_evaluator.py: MappedDFTKernel.__call__ with the real native baselines incl. ciderpress/dft/baselines.py get_sigma, get_dsigma, get_gga_c (kernel_cut/*; libxc total by contract)', "ciderpress/dft/transform_data.py: all map classes", "ciderpress/dft/feat_normalizer.py: FeatNormalizerList + 3 normaliser classes",
                "ciderpress/dft/settings.py: get_s2, ds2, get_alpha, dalpha, dtauw, get_cider_exponent(_gga)", "ciderpress/dft/baselines.py: native baselines",
                "ciderpress/pyscf/numint.py: eval_xc_cider (assembled, whole domain)"],
     bounds=dict(domain="rho in [0, 1e12] incl. 0 and both sides of 1e-10/rhocut/ALPHA_TOL, sigma in [0, 1e24], tau in [0, 1e18], EPS = 1e-16", sample_points=1,
